@@ -62,6 +62,9 @@ impl InferShapes for Slice {
                     && let Some(SymExpr::Value(step)) = step
                     && let SymExpr::Value(size) = dims[axis]
                 {
+                    if *step == 0 {
+                        return Err(InferShapesError::InvalidValue);
+                    }
                     // An end of `i32::MAX` (or `i32::MIN` for a negative step)
                     // is the saturated form of "slice to the end". This does
                     // not apply to `i32::MAX` with a negative step, which
